@@ -63,6 +63,46 @@ PLAN = {
         "quick": [ph("input", 8, 700)],
         "thorough": [ph("input", 16, 35000)],
     },
+    "C10": {
+        "level": "exploration",
+        "level_text": "History monitor at the API boundary: for every Timer.Record the recorder log must grow by exactly one timer event carrying that duration and the reference name/tags, ordered before the harness's 'Record returned' marker; interleaved report passes must add none; with both reporter kinds only the cached one may receive it; stopwatches are bracketed by monotonic clock readings taken around Start/Stop with PRNG sleeps; instrument.Call.Exec is checked for run-once, error identity, one latency and exactly one counter",
+        "level_note": "trusts the recording reporters and the reference name/tag model; the stopwatch oracle compares against readings of the same monotonic clock (no wall-clock deadline)",
+        "technique": "runtime history monitor (exactly-once / ordering oracle over recorded reporter calls) with clock-reading brackets",
+        "rule": "case = one record history (3..40 ops on 1..3 derived scopes, plain/cached/both reporters, passes interleaved, durations incl. negative/0/int64 extremes) + one instrumented-call history (1..8 calls, random outcomes) + every 8th case a stopwatch (timer or duration histogram) with a PRNG sleep; distinct_nontrivial = distinct history hashes",
+        "assumptions": ["recording reporters mon/rec.go", "time.Now monotonic readings"],
+        "quick": [ph("input", 8, 300)],
+        "thorough": [ph("input", 16, 15000)],
+    },
+    "C11": {
+        "level": "exploration",
+        "level_text": "Reference-model monitor: generated record/close/snapshot histories on a test scope and derived scopes are mirrored in a reference tally keyed by injective identity; every snapshot (taken at PRNG points and at the end) must equal it entry for entry, old snapshots are re-read after more recording, vandalised, and fresh snapshots re-checked; a concurrent variant brackets counter/gauge/timer values of snapshots taken while single recorders run",
+        "level_note": "trusts the reference tally and bucketing model; strings exclude the delimiter characters (identity merges are the C05 known finding)",
+        "technique": "runtime reference-model monitor over generated histories (also under the race detector for the concurrent variant)",
+        "rule": "case = one history of 5..60 operations (Inc/Update/Record/RecordValue/RecordDuration/Snapshot/re-read+vandalise/close subscope) over 1..4 scopes of a test root; every 4th case also 30 snapshots concurrent with 3 recorders; distinct_nontrivial = distinct history hashes",
+        "assumptions": ["reference tally in cmd/vh/c11.go", "mon/ref.go"],
+        "quick": [ph("input", 8, 250), ph("race", 2, 40, race=True)],
+        "thorough": [ph("input", 16, 12000), ph("race", 8, 1000, race=True)],
+    },
+    "C18": {
+        "level": "exploration",
+        "level_text": "Call-log monitor on a recording statsd.Statter: every report call on the real reporter must produce exactly one client call with the reference method, name, value and sample rate; bucket stat names are compared with a reference rendering over every pair of generated specs and checked pairwise for collisions",
+        "level_note": "trusts the reference rendering (open ends, %.Pf, Duration.String) written from the property statement",
+        "technique": "runtime call-log monitor with reference rendering over generated inputs",
+        "rule": "case = one reporter configuration (precision 0(unset)..12, rate unset/1/(0,1)) x 12 counter/gauge/timer reports with extreme values + all bucket pairs of one generated value or duration spec (incl. bounds differing only beyond the precision); distinct_nontrivial = distinct case hashes",
+        "assumptions": ["reference rendering in cmd/vh/c18.go"],
+        "quick": [ph("input", 8, 400)],
+        "thorough": [ph("input", 16, 20000)],
+    },
+    "C19": {
+        "level": "exploration",
+        "level_text": "Call-log monitor: generated call histories on plain and cached multi reporters over 0..5 recording children with all capability combinations; after every call each child's log must have grown by exactly one identical call, children in construction order (one global sequence counter), handles and histogram buckets included",
+        "level_note": "trusts the recording reporters; histories are generated, not exhaustive",
+        "technique": "runtime call-log monitor (per-child exactly-once and order oracle)",
+        "rule": "case = one plain history (1..60 calls) + one cached history (1..80 allocations/reports/bucket lookups/flushes) over 0..5 children with random capabilities; distinct_nontrivial = distinct history hashes",
+        "assumptions": ["recording reporters mon/rec.go"],
+        "quick": [ph("input", 8, 300)],
+        "thorough": [ph("input", 16, 15000)],
+    },
 }
 
 NOT_APPLICABLE = {}
